@@ -31,6 +31,7 @@ def floors(m, tier):
             "R8 non-conforming mutants": (c.get("r8_nonconforming", 0), BUDGET[tier] // 4),
             "desynchronised duplicate mutants": (c.get("mut:desync", 0), BUDGET[tier] // 40),
             "root switched": (c.get("mut:switch_root", 0), BUDGET[tier] // 60),
+            "query-like tails": (c.get("mut:query_like_tail", 0), BUDGET[tier] // 60),
             "shards that used the configurations in reverse order first": (c.get("reverse_load_order_shards", 0), 1)}
 
 
@@ -120,6 +121,10 @@ def mutate_path(rng, p, pm, other_pm, tpl, vals, vocab_vals):
             c2 = comps[:]
             c2[i] = rng.choice([c2[i].lower(), c2[i] + "X", "FOO", ""])
             return "/".join(c2), "fixed_folder"
+    if r < 0.74:
+        # a '?' in the last component: a file / folder name like any other (the separator of the Sid QUERY layer means nothing in a path)
+        k = rng.choice(tpl.keys)
+        return p + rng.choice(["?", "?a=b", "?%s=%s" % (k, vals[k]), "?%s=zz" % tpl.keys[-1], "?%s=*" % k]), "query_like_tail"
     if r < 0.78:
         return p + rng.choice(["/", "/x", "/v001", ".bak", "~", " ", "\n", "\t", "/.", "/.."]), "trailing_add"
     if r < 0.84:
